@@ -98,10 +98,10 @@ Definition otto_indexof_start (index length : Z) : option Z :=
 Definition otto_indexof (v : val) (len : Z) : option (option Z) :=
   option_map (fun i => otto_indexof_start i len) (otto_int64 v).
 
-(* builtinArrayLastIndexOf: `if index > length { index = length - 1 }` lets index = length through *)
+(* builtinArrayLastIndexOf *)
 Definition otto_lastindexof_start (index length : Z) : option Z :=
   let index := if index <? 0 then index + length else index in
-  if length <? index then (if length - 1 <? 0 then None else Some (length - 1))
+  if length <=? index then (if length - 1 <? 0 then None else Some (length - 1))
   else if index <? 0 then None else Some index.
 Definition otto_lastindexof (v : val) (len : Z) : option (option Z) :=
   option_map (fun i => otto_lastindexof_start i len) (otto_int64 v).
@@ -122,20 +122,20 @@ Definition otto_parse_int (s : list Z) : option Z :=
       end
   end.
 
-(* otto_.go stringToArrayIndex *)
+(* otto_.go stringToArrayIndex: ParseInt, range, and strconv.FormatInt(index, 10) == name *)
 Definition stringToArrayIndex (s : list Z) : option Z :=
   match otto_parse_int s with
   | None => None
-  | Some i => if i <? 0 then None else if max_index <=? i then None else Some i
+  | Some i => if i <? 0 then None else if max_index <=? i then None
+              else if zlist_eqb (dec i) s then Some i else None
   end.
 
-(* the index otto's arrayDefineOwnProperty sees in a name; [names] = false switches the
-   string-level deviation off (used to attribute a disagreement to one finding) *)
-Definition otto_key_index (names : bool) (k : key) : option Z :=
+(* the index arrayDefineOwnProperty sees in a name (KI n is the name dec n, see Names.v) *)
+Definition otto_key_index (k : key) : option Z :=
   match k with
   | KI n => if n <? max_index then Some n else None
   | KLen => None
-  | KS s => if names then stringToArrayIndex s else None
+  | KS s => stringToArrayIndex s
   end.
 
 (* type_array.go arrayUint32: Some None = RangeError *)
@@ -145,9 +145,8 @@ Definition otto_array_uint32 (v : val) : option (option Z) :=
   | Some (isint, i) => Some (if isint && (0 <=? i) && (i <=? max_index) then Some i else None)
   end.
 
-(* type_array.go arrayDefineOwnProperty.  [lens] = false replaces the `newLength > length`
-   test by ES5's >= (attribution switch, as above). *)
-Definition otto_def_array (names lens : bool) (o : obj) (k : key) (d : desc) (throw : bool) : obj * dres :=
+(* type_array.go arrayDefineOwnProperty *)
+Definition otto_def_array (o : obj) (k : key) (d : desc) (throw : bool) : obj * dres :=
   match get_own o KLen with
   | None => (o, DThrow (-1))
   | Some lengthProperty =>
@@ -162,7 +161,7 @@ Definition otto_def_array (names lens : bool) (o : obj) (k : key) (d : desc) (th
             | Some None => (o, DThrow 3)
             | Some (Some newLength) =>
                 let d1 := mkD (Some (VNum newLength)) (d_w d) (d_e d) (d_c d) in
-                if (if lens then length <? newLength else length <=? newLength) then def_ord o KLen d1 throw
+                if length <=? newLength then def_ord o KLen d1 throw
                 else if negb (pw lengthProperty) then (o, reject throw)
                 else if shrink_limit <? length - newLength then (o, DThrow (-1))
                 else
@@ -184,7 +183,7 @@ Definition otto_def_array (names lens : bool) (o : obj) (k : key) (d : desc) (th
             end
         end
     | _ =>
-        match otto_key_index names k with
+        match otto_key_index k with
         | Some index =>
             if (length <=? index) && negb (pw lengthProperty) then (o, reject throw)
             else match def_ord o (KI index) d false with
@@ -200,13 +199,11 @@ Definition otto_def_array (names lens : bool) (o : obj) (k : key) (d : desc) (th
   end.
 
 Definition otto : dialect :=
-  mkDia (otto_def_array true true) otto_rel otto_cnt otto_indexof otto_lastindexof true true true true true.
+  mkDia otto_def_array otto_rel otto_cnt otto_indexof otto_lastindexof true true true.
 
-(* ES5 with otto's departures number 1..c switched on (numbering of the finding classes,
+(* ES5 with otto's open departures number 2..c switched on (numbering of the finding classes,
    see Corr.v); the correspondence run uses these to name the first departure that
    makes a history disagree with ES5 *)
 Definition upto (c : Z) : dialect :=
-  mkDia (otto_def_array (1 <=? c) (8 <=? c))
-        (dia_rel es5) (dia_cnt es5) (dia_indexof es5)
-        (if 7 <=? c then otto_lastindexof else dia_lastindexof es5)
-        (2 <=? c) (3 <=? c) (4 <=? c) (5 <=? c) (6 <=? c).
+  mkDia def_array (dia_rel es5) (dia_cnt es5) (dia_indexof es5) (dia_lastindexof es5)
+        (2 <=? c) (3 <=? c) (4 <=? c).
